@@ -1,6 +1,9 @@
 package importgraph
 
-import "fmt"
+import (
+	"fmt"
+	"sort"
+)
 
 type dgraph struct {
 	nodes map[string][]string
@@ -52,7 +55,13 @@ func (d *dgraph) findCycle(from string, stack map[string]struct{}, visited map[s
 func (d *dgraph) FindCycle() error {
 	stack := map[string]struct{}{}
 	visited := map[string]struct{}{}
+	// scan from the nodes in sorted order so that the same cycle is reported every time
+	nodes := make([]string, 0, len(d.nodes))
 	for node := range d.nodes {
+		nodes = append(nodes, node)
+	}
+	sort.Strings(nodes)
+	for _, node := range nodes {
 		if _, ok := visited[node]; ok {
 			continue
 		}
